@@ -25,18 +25,45 @@ deriving DecidableEq, Repr, Inhabited
 def cfRow (ax : Axis) (o : Op) (x : Int) : Option Int := match ax with | .row => cfCoord o x | .col => some x
 def cfCol (ax : Axis) (o : Op) (x : Int) : Option Int := match ax with | .col => cfCoord o x | .row => some x
 
--- models actions.rs::displace_cf_sqref_part: every corner is displaced on its own; if any corner is deleted
--- (`None`) or a column leaves the grid (`number_to_column` = None) the ORIGINAL string is kept.
--- Rows are not checked against the grid.
-def cfPartDisp (ax : Axis) (o : Op) (p : CfPart) : CfPart :=
-  if p.single then
-    match cfRow ax o p.r1, cfCol ax o p.c1 with
-    | some r, some c => if inGrid .col c then ⟨true, r, c, r, c⟩ else p
-    | _, _ => p
-  else
-    match cfRow ax o p.r1, cfCol ax o p.c1, cfRow ax o p.r2, cfCol ax o p.c2 with
-    | some a, some b, some c, some d => if inGrid .col b && inGrid .col d then ⟨false, a, b, c, d⟩ else p
-    | _, _, _, _ => p
+-- models actions.rs::deleted_cf_rows / deleted_cf_cols: the lines `first..=last` a deletion removes
+def deletedBand : Op → Option (Int × Int)
+  | .delete r k => some (r, r + k - 1)
+  | _ => none
+
+-- models actions.rs::displace_cf_edges: the two edges `a`, `b` of a range along the edited axis.  If both survive
+-- they are displaced on their own; if an edge is deleted the range shrinks to its surviving lines.  Result: the
+-- new edges and the OLD position of the first one; `none` when no line of the range survives.
+def cfEdges (o : Op) (a b : Int) : Option (Int × Int × Int) :=
+  match cfCoord o a, cfCoord o b with
+  | some na, some nb => some (na, nb, a)
+  | _, _ =>
+    match deletedBand o with
+    | none => none
+    | some (s, e) =>
+      let lo := min a b
+      let hi := max a b
+      let lo := if s ≤ lo ∧ lo ≤ e then e + 1 else lo
+      let hi := if s ≤ hi ∧ hi ≤ e then s - 1 else hi
+      if lo > hi then none
+      else match cfCoord o lo, cfCoord o hi with
+        | some x, some y => some (x, y, lo)
+        | _, _ => none
+
+def cfRowEdges (ax : Axis) (o : Op) (a b : Int) : Option (Int × Int × Int) :=
+  match ax with | .row => cfEdges o a b | .col => some (a, b, a)
+def cfColEdges (ax : Axis) (o : Op) (a b : Int) : Option (Int × Int × Int) :=
+  match ax with | .col => cfEdges o a b | .row => some (a, b, a)
+
+-- models actions.rs::displace_cf_sqref_part: the part follows its cells; it shrinks when some of its lines are
+-- deleted; `none` when all its cells are deleted.  If a column leaves the grid (`number_to_column` = None) the
+-- ORIGINAL string is kept.  Rows are not checked against the grid.  Second component: the cell (before the edit)
+-- that becomes the first corner of the new part.
+def cfPartDisp (ax : Axis) (o : Op) (p : CfPart) : Option (CfPart × (Int × Int)) :=
+  match cfRowEdges ax o p.r1 p.r2, cfColEdges ax o p.c1 p.c2 with
+  | some (a, c, sr), some (b, d, sc) =>
+    if inGrid .col b && inGrid .col d then some (⟨p.single, a, b, c, d⟩, (sr, sc))
+    else some (p, (p.r1, p.c1))
+  | _, _ => none
 
 /-- a rectangle `row, column, height, width` (`expressions::types::Area` on the CF's sheet) -/
 structure Rect where
@@ -125,16 +152,22 @@ def CfE.host (s : Nat) (e : CfE) : Host :=
   | some (r, c) => ⟨s, r, c⟩
   | none => ⟨s, 1, 1⟩
 
--- models actions.rs::displace_cf_ranges for one entry: the range is displaced part by part, the rule formulas are
--- displaced as seen from the OLD anchor (to_string_displaced); the stored text is then read at the new anchor
-def cfStep (ax : Axis) (s : Nat) (o : Op) (e : CfE) : CfE :=
-  let h := e.host s
-  let parts' := e.parts.map (cfPartDisp ax o)
-  let e' : CfE := { parts := parts', formulas := [] }
-  let h' := e'.host s
-  { parts := parts',
-    formulas := e.formulas.map fun (tpl, atoms) =>
-      (tpl, atoms.map fun a => retypeAtom h h' (rhoAtom ⟨ax, s, o⟩ h a)) }
+-- models actions.rs::displace_cf_ranges for one entry: the range is displaced part by part (parts with no
+-- surviving cell are dropped; `none` = no part is left and the entry is removed); the rule formulas are read at
+-- the OLD anchor and written, displaced, as seen from the cell that becomes the new anchor (the old anchor
+-- itself unless it is deleted); the stored text is then read at the new anchor
+def cfStep (ax : Axis) (s : Nat) (o : Op) (e : CfE) : Option CfE :=
+  let res := e.parts.filterMap (cfPartDisp ax o)
+  match res with
+  | [] => none
+  | (_, (sr, sc)) :: _ =>
+    let parts' := res.map (·.1)
+    let e' : CfE := { parts := parts', formulas := [] }
+    let h' := e'.host s
+    let hs : Host := ⟨s, sr, sc⟩
+    some { parts := parts',
+           formulas := e.formulas.map fun (tpl, atoms) =>
+             (tpl, atoms.map fun a => retypeAtom hs h' (rhoAtom ⟨ax, s, o⟩ hs a)) }
 
 -- models cut_paste.rs::get_conditional_formatting_updates_for_cut for one entry
 def cfCut (s : Nat) (a : Rect) (tr tc : Int) (e : CfE) : CfE :=
